@@ -299,8 +299,10 @@ func (cg *caseGen) effect(global bool, nargs int) pvcase.Effect {
 func (cg *caseGen) when(f *pvcase.Fault) {
 	if cg.chance(0.5) {
 		f.Always = true
+	} else if cg.chance(0.7) {
+		f.At = uint64(cg.r.IntN(3))
 	} else {
-		f.At = uint64(cg.r.IntN(5))
+		f.At = uint64(cg.r.IntN(8))
 	}
 }
 
@@ -350,6 +352,17 @@ func (cg *caseGen) fillBlock(b *pvcase.Block) {
 	switch b.Kind {
 	case 'a':
 		b.RetV = cg.vexpr(&vctx{nargs: nargs, used: map[int]bool{}}, 0)
+		if nargs > 0 && cg.chance(cg.f.tupBias) {
+			// left-nested value building: the tuple of all labels
+			t := &pvcase.VExpr{Op: "tup"}
+			for i := 0; i < nargs; i++ {
+				t.Kids = append(t.Kids, &pvcase.VExpr{Op: "arg", I: i})
+			}
+			if cg.chance(0.2) {
+				t.Kids = append(t.Kids, &pvcase.VExpr{Op: "text"})
+			}
+			b.RetV = t
+		}
 	case 'p':
 		b.RetB = cg.bexpr(nargs, 0)
 	}
